@@ -75,6 +75,10 @@ def gen_cases(tier, seed):
                 "shift": float(rng.normal() * 0.5), "theta": float(rng.uniform(0.2, 1.2)),
                 "zeeman": float(rng.choice([0.0, 0.4, 1.0])) if (len(cases) % 2 == 0) else 0.0,
                 "s": int(rng.integers(1 << 30)), "group": "fs-%s-%s-%s-%s" % (l, ne, prop, trial), "cost": 6})
+            if len(cases) % 3 == 0:
+                # strong coupling x coarse time step (dt U up to 9): the discrete transformation is exact for any dt U
+                u_s, dt_s = [(8.0, 0.8), (16.0, 0.4), (12.0, 0.75), (4.0, 2.0), (10.0, 0.5)][int(rng.integers(5))]
+                cases[-1].update({"u": u_s, "dt": dt_s, "noise": 0.02})
     # ---- fastslow
     for variant in ("onsite", "nn"):
         for trial in ("uhf", "ghf"):
